@@ -56,6 +56,10 @@ type envModel struct {
 	tables   map[int]string // field index -> name (map-typed fields)
 	parentI  int
 	extI     int
+	// entryLock: for an unexported function of the package that is only ever called with the lock of an argument scope held
+	// ("the caller holds the lock"), the lock state it starts in (computed from all its call sites)
+	entryLock map[*ssa.Function]lockState
+	entryDone bool
 }
 
 func buildEnvModel(p *Program) (*envModel, error) {
@@ -311,8 +315,12 @@ func knownNilIn(b *ssa.BasicBlock, v ssa.Value) bool {
 }
 
 // returnsFreshMap: every result the function returns is a map made in it (or nil).
-func returnsFreshMap(fn *ssa.Function) bool {
-	if fn == nil || len(fn.Blocks) == 0 {
+func returnsFreshMap(fn *ssa.Function) bool { return returnsFreshMapAt(fn, 0, 0) }
+
+// returnsFreshMapAt: result #k of every return of fn is a map made there, nil, or the fresh result of another function of
+// the package.
+func returnsFreshMapAt(fn *ssa.Function, k int, depth int) bool {
+	if fn == nil || len(fn.Blocks) == 0 || depth > 3 {
 		return false
 	}
 	n := 0
@@ -334,16 +342,46 @@ func returnsFreshMap(fn *ssa.Function) bool {
 				}
 			}
 			return true
+		case *ssa.Call:
+			if callee := staticCallee(x); callee != nil && callee.Pkg == fn.Pkg && callee != fn {
+				return returnsFreshMapAt(callee, 0, depth+1)
+			}
+		case *ssa.Extract:
+			if c, ok := x.Tuple.(*ssa.Call); ok {
+				if callee := staticCallee(c); callee != nil && callee.Pkg == fn.Pkg && callee != fn {
+					return returnsFreshMapAt(callee, x.Index, depth+1)
+				}
+			}
+		case *ssa.UnOp:
+			// a result spilled around the deferred calls: what was stored into the result variable
+			if al, ok := x.X.(*ssa.Alloc); ok && x.Op == token.MUL {
+				stores := 0
+				for _, ref := range *al.Referrers() {
+					if st, ok := ref.(*ssa.Store); ok && st.Addr == ssa.Value(al) {
+						stores++
+						if !fresh(st.Val, seen) {
+							return false
+						}
+					}
+				}
+				return stores > 0
+			}
 		}
 		return false
 	}
 	for _, b := range fn.Blocks {
 		if ret, ok := b.Instrs[len(b.Instrs)-1].(*ssa.Return); ok {
-			if len(ret.Results) == 1 && knownNilIn(b, ret.Results[0]) {
+			if b == fn.Recover {
+				continue
+			}
+			if len(ret.Results) <= k {
+				return false
+			}
+			if knownNilIn(b, ret.Results[k]) {
 				n++
 				continue
 			}
-			if len(ret.Results) != 1 || !fresh(ret.Results[0], map[ssa.Value]bool{}) {
+			if !fresh(ret.Results[k], map[ssa.Value]bool{}) {
 				return false
 			}
 			n++
@@ -420,13 +458,93 @@ func blockInCycle(b *ssa.BasicBlock) bool {
 }
 
 // lockset runs the forward dataflow and returns the state before every instruction.
+// computeEntryLocks: an unexported function whose every use is a direct call from the package, each made while the caller
+// holds the lock of the scope it passes (in one and the same mode), starts with that lock held; it does not own the lock, so
+// returning with it is in order (recorded as deferred) and unlocking it is reported.
+func (m *envModel) computeEntryLocks() {
+	if m.entryDone {
+		return
+	}
+	m.entryDone = true
+	m.entryLock = map[*ssa.Function]lockState{}
+	fns := SrcFuncs(m.sp)
+	for iter := 0; iter < 4; iter++ {
+		silent := NewReport("C13", "quick")
+		states := map[*ssa.Function]map[ssa.Instruction]lockState{}
+		for _, fn := range fns {
+			states[fn] = m.lockset(fn, silent, "-")
+		}
+		next := map[*ssa.Function]lockState{}
+		for _, callee := range fns {
+			if callee.Object() == nil || callee.Object().Exported() || callee.Parent() != nil || len(callee.Blocks) == 0 {
+				continue
+			}
+			// every reference to the function is a direct call
+			onlyCalled, calls := true, 0
+			entry := lockState{}
+			first := true
+			for _, caller := range fns {
+				for _, b := range caller.Blocks {
+					for _, in := range b.Instrs {
+						c, isCall := in.(*ssa.Call)
+						for _, op := range in.Operands(nil) {
+							if *op == ssa.Value(callee) && !(isCall && c.Call.Value == ssa.Value(callee)) {
+								onlyCalled = false
+							}
+						}
+						if !isCall || staticCallee(c) != callee {
+							continue
+						}
+						calls++
+						st := states[caller][in]
+						here := lockState{}
+						for i, a := range c.Call.Args {
+							if i < len(callee.Params) && m.isEnvPtr(a.Type()) {
+								if li, ok := st[a]; ok && li.mode != lkUnlocked {
+									here[callee.Params[i]] = lockInfo{mode: li.mode, deferred: true}
+								}
+							}
+						}
+						if first {
+							entry, first = here, false
+						} else {
+							for k, v := range entry {
+								if h, ok := here[k]; !ok || h.mode != v.mode {
+									delete(entry, k)
+								}
+							}
+						}
+					}
+				}
+			}
+			if onlyCalled && calls > 0 && len(entry) > 0 {
+				next[callee] = entry
+			}
+		}
+		same := len(next) == len(m.entryLock)
+		for k, v := range next {
+			if o, ok := m.entryLock[k]; !ok || !o.equal(v) {
+				same = false
+			}
+		}
+		m.entryLock = next
+		if same {
+			break
+		}
+	}
+}
+
 func (m *envModel) lockset(fn *ssa.Function, r *Report, rule string) map[ssa.Instruction]lockState {
 	before := map[ssa.Instruction]lockState{}
 	in := map[*ssa.BasicBlock]lockState{}
 	if len(fn.Blocks) == 0 {
 		return before
 	}
+	m.computeEntryLocks()
 	in[fn.Blocks[0]] = lockState{}
+	if e, ok := m.entryLock[fn]; ok {
+		in[fn.Blocks[0]] = e.clone()
+	}
 	work := []*ssa.BasicBlock{fn.Blocks[0]}
 	fname := funcName(fn)
 	reported := map[string]bool{}
@@ -607,6 +725,40 @@ func checkC13(p *Program, r *Report) {
 	}
 	nAcc, nFuncs, nLockOps := 0, 0, 0
 	var funcsWithAccess []string
+	// iterates: the tables of its first scope argument that a function of the package ranges over, itself or through helpers
+	iterates := map[*ssa.Function]map[int]bool{}
+	for changed := true; changed; {
+		changed = false
+		for _, g := range SrcFuncs(m.sp) {
+			if len(g.Params) == 0 || !m.isEnvPtr(g.Params[0].Type()) {
+				continue
+			}
+			add := func(f int) {
+				if iterates[g] == nil {
+					iterates[g] = map[int]bool{}
+				}
+				if !iterates[g][f] {
+					iterates[g][f] = true
+					changed = true
+				}
+			}
+			for _, a := range m.accessesOf(g) {
+				if a.base == ssa.Value(g.Params[0]) && !a.write && (a.what == "range" || a.what == "range step") {
+					add(a.field)
+				}
+			}
+			for _, b := range g.Blocks {
+				for _, in := range b.Instrs {
+					if c, ok := in.(*ssa.Call); ok && staticCallee(c) != nil && staticCallee(c) != g && len(c.Call.Args) > 0 && c.Call.Args[0] == ssa.Value(g.Params[0]) {
+						for f := range iterates[staticCallee(c)] {
+							add(f)
+						}
+					}
+				}
+			}
+		}
+	}
+
 	for _, fn := range fns {
 		accs := m.accessesOf(fn)
 		hasLock := false
@@ -743,12 +895,46 @@ func checkC13(p *Program, r *Report) {
 				base0 = a.base
 			}
 		}
+		// a table iterated by a helper of the package that is handed the scope: inside the caller's critical section when the
+		// caller holds the lock at the call, otherwise a critical section of the helper's own (identified by the call)
+		helperSection := map[ssa.Instruction]bool{}
+		if len(fn.Params) > 0 && m.isEnvPtr(fn.Params[0].Type()) {
+			for _, b := range fn.Blocks {
+				for _, in := range b.Instrs {
+					c, ok := in.(*ssa.Call)
+					if !ok || staticCallee(c) == nil || len(c.Call.Args) == 0 {
+						continue
+					}
+					fields := iterates[staticCallee(c)]
+					if len(fields) == 0 || staticCallee(c) == fn {
+						continue
+					}
+					a0 := c.Call.Args[0]
+					if base0 != nil && a0 != base0 {
+						continue
+					}
+					if !m.isEnvPtr(a0.Type()) || isFresh(a0) {
+						continue
+					}
+					base0 = a0
+					for f := range fields {
+						readsByField[f] = append(readsByField[f], in)
+					}
+					if before[in][a0].mode == lkUnlocked {
+						helperSection[in] = true
+					}
+				}
+			}
+		}
 		if len(readsByField) >= 2 {
 			var acq ssa.Instruction
 			same := true
 			for _, ins := range readsByField {
 				for _, in := range ins {
 					li := before[in][base0]
+					if helperSection[in] {
+						li.acq = in
+					}
 					if li.acq == nil {
 						same = false
 					} else if acq == nil {
